@@ -50,7 +50,8 @@ static int self_id() { return verif::self(); }
 struct Lock { void lock() {} void unlock() {} };      // one controlled thread runs at a time and the monitors contain no scheduling point
 #endif
 static Lock g_lk;
-struct Guard { Guard() { g_lk.lock(); } ~Guard() { g_lk.unlock(); } };
+static thread_local int tl_guard_depth = 0;      // re-entrant: monitors that hold the lock may copy elements (whose constructors take it too)
+struct Guard { Guard() { if (tl_guard_depth++ == 0) g_lk.lock(); } ~Guard() { if (--tl_guard_depth == 0) g_lk.unlock(); } };
 
 namespace d1 = tbb::detail::d1;
 
@@ -76,16 +77,33 @@ struct Elem {
     ~Elem() { Guard g; if (!g_live.erase(this)) fail("an element was destroyed twice"); }
 };
 
+// every public way of visiting the elements must agree with the primary traversal (`each`): they all have to see each thread's element
+// exactly once.  `hits` is free for this: the elements get hits = owner + 1 first, so a fold over `hits` names the set of owners.
+static Elem fold_hits(const Elem& a, const Elem& b) { Elem r(a); r.hits = a.hits + b.hits; return r; }
 template <class C> struct Acc;
 template <class T, class A, d1::ets_key_usage_type K> struct Acc<tbb::enumerable_thread_specific<T, A, K>> {
     using C = tbb::enumerable_thread_specific<T, A, K>;
     template <class F> static void each(C& c, F f) { for (auto it = c.begin(); it != c.end(); ++it) f(*it); }
     static size_t size(C& c) { return c.size(); }
+    static void other_traversals(C& c, size_t users, long owners_sum) {
+        size_t n1 = 0, n2 = 0, n3 = 0; long s1 = 0, s2 = 0, s3 = 0;
+        c.combine_each([&](const T& x) { n1++; s1 += x.hits; });
+        const C& cc = c;
+        for (auto it = cc.begin(); it != cc.end(); ++it) { n2++; s2 += it->hits; }
+        for (auto& x : c.range()) { n3++; s3 += x.hits; }
+        if (n1 != users || s1 != owners_sum) fail("combine_each visits " + std::to_string(n1) + " elements (owner sum " + std::to_string(s1) + ") but " + std::to_string(users) + " threads have an element (sum " + std::to_string(owners_sum) + ")");
+        if (n2 != users || s2 != owners_sum) fail("const iteration visits " + std::to_string(n2) + " elements but " + std::to_string(users) + " threads have an element");
+        if (n3 != users || s3 != owners_sum) fail("range() visits " + std::to_string(n3) + " elements but " + std::to_string(users) + " threads have an element");
+        if (users) { T r = c.combine(fold_hits); if (r.hits != owners_sum) fail("combine(f) folded to " + std::to_string(r.hits) + " instead of " + std::to_string(owners_sum) + " (an element missed or visited twice)"); }
+    }
 };
 template <class T> struct Acc<tbb::combinable<T>> {
     using C = tbb::combinable<T>;
     template <class F> static void each(C& c, F f) { c.combine_each([&](T& x) { f(x); }); }
     static size_t size(C& c) { size_t n = 0; c.combine_each([&](const T&) { n++; }); return n; }
+    static void other_traversals(C& c, size_t users, long owners_sum) {
+        if (users) { T r = c.combine(fold_hits); if (r.hits != owners_sum) fail("combinable::combine(f) folded to " + std::to_string(r.hits) + " instead of " + std::to_string(owners_sum) + " (an element missed or visited twice)"); }
+    }
 };
 
 struct Phase { char kind; std::vector<std::pair<int, int>> who; };      // L: (thread, n)...; others: (thread, 0)
@@ -134,6 +152,11 @@ template <class C> static bool run_once(
         if (nlive != u) fail(std::to_string(nlive) + " elements are alive but " + std::to_string(u) + " threads accessed the container since the last clear()");
         for (size_t t = 0; t < T; ++t) if (g_inits[t] != (accessed[t] == g_gen ? 1 : 0))
             fail("thread " + std::to_string(t) + " ran the initialiser " + std::to_string(g_inits[t]) + " times in this generation");
+        {   // the other traversal APIs
+            long osum = 0;
+            A::each(*cont, [&](Elem& e) { e.hits = e.owner + 1; osum += e.owner + 1; });
+            A::other_traversals(*cont, visits.size(), osum);
+        }
         std::sort(creators.begin(), creators.end());
         std::string s = "chk " + std::to_string(p) + " size=" + std::to_string(A::size(*cont)) + " iter=";
         for (size_t i = 0; i < creators.size(); ++i) s += (i ? "," : "") + std::to_string(creators[i]);
